@@ -18,6 +18,13 @@ NA = {
  "C20":"integer square root: pure function of x",
 }
 CLAIMED = {
+ "C18": dict(
+   category="fault_enumeration",
+   text="Record-store simulation of the DER and RLP codecs through their stream seams (der::Writer with a capacity, SliceWriter, SliceReader top-level and nested in a SEQUENCE, TryFrom<AnyRef>/<UintRef>, RlpStream, Rlp). Enumerated completely per width: every content length 0..=BYTES+4 x leading/second octet classes x tags x length-field forms x entry points; every truncation offset and appended length of sampled records; every writer capacity 0..=len+1. Seeded: values and 0-3 storage faults per record. Every decode is compared with a strict reference codec (Err, or Ok with exactly the value the canonical encoding denotes), every encode with the canonical reference encoding; decoders and encoders run under the panic monitor.",
+   design_ref="DESIGN.md section 4, C18",
+   note="Trusted: the reference codecs (model/codec.rs, ~150 lines, written from X.690 and the RLP spec), num-bigint, Encoding::to_be_bytes/from_be_bytes as value bridge, the der crate's header/length layer and the rlp crate's item framing (where rlp's framing is laxer than the RLP spec — e.g. long-form header for a short string — this is counted as a probe, not reported: it is outside crypto-bigint's Decodable impl). Complete for the enumerated structural dimensions at the listed widths only; bodies and bit flips are sampled.",
+   technique="deterministic simulation: encode -> simulated medium with enumerated storage faults (every truncation offset, every writer capacity, every length-field form) -> decode, judged against reference codecs",
+ ),
  "C19": dict(
    category="exploration",
    text="Seeded simulation of every sampling API against a simulator-owned RNG tape (uniform, all-zero, all-ones, words equal to / around the modulus, alternating accept/reject, finite tapes ending mid-value, failure injected at a call or byte index). Range, documented errors, wrapper invariants, fixed-vs-boxed agreement of value and bytes consumed, error propagation at every consumption point (enumerated per run) and recovery are checked on each run; every bit length 0..=BITS+1 is enumerated per width; uniformity is a chi-square judgement over >=1e6 draws per configuration with a 1e-12 false-alarm bound. Sampling, not proof.",
